@@ -4,9 +4,11 @@ Decidable trace predicates for C13, evaluated by the driver on what really happe
   verification tag (INIT carries 0, everything else the peer's initiate tag), new DATA TSNs
   consecutive per sender;
 * `epCheck` — on one endpoint's own trace (packets processed / emitted and `transmit()` marks in
-  run-loop order): the window arithmetic of each `transmit()`, the advertised window in use is the
-  last one received, no DATA chunk is sent again after a processed SACK covered it, nothing but
-  heartbeats leaves once everything is acknowledged.
+  run-loop order): an accounting of the bytes on the wire that is independent of the code's
+  `flight_size` (DATA chunks sent and not acknowledged by any processed SACK) — new data only while
+  it stays within the newest advertised window plus one packet; no DATA chunk is sent again after a
+  processed SACK covered it; once everything is acknowledged and nothing is queued only heartbeats,
+  answers and owed SACKs leave; and, as a correspondence, the window arithmetic of each `transmit()`.
 Core Lean only.
 -/
 import RtcModel.SctpSend
@@ -102,18 +104,44 @@ deriving Repr, Inhabited
 structure EpSt where
   /-- payload sizes of the chunks in the outbound queue -/
   outQ      : List Nat := []
-  /-- `peer_rwnd` as last received (INIT / INIT-ACK / SACK) -/
+  /-- `peer_rwnd` as last received (INIT / INIT-ACK / SACK): what the code's variable holds -/
   rwnd      : Nat := 262144
-  /-- highest cumulative TSN a processed SACK carried (serially) -/
+  /-- the serially newest cumulative TSN a processed SACK carried, and that SACK's `a_rwnd`
+  (before any SACK: the window announced in the peer's INIT / INIT-ACK) -/
   cumAcked  : Option UInt32 := none
+  bestRwnd  : Nat := 262144
   /-- next new TSN this endpoint will use -/
   nextTsn   : Option UInt32 := none
+  /-- independent accounting: DATA chunks put on the wire and not yet cumulatively acknowledged,
+  oldest first: (tsn, wire length, gap-acked) -/
+  unacked   : List (UInt32 × Nat × Bool) := []
+  /-- at least one DATA chunk was sent -/
+  everSent  : Bool := false
+  /-- a T3 expiry happened while data was outstanding and not everything has been acknowledged since
+  (the code then restarts its `flight_size` from 0, RFC 4960 §6.3.3: outstanding chunks presumed lost) -/
+  afterT3   : Bool := false
+  /-- a DATA / FORWARD-TSN chunk was received since the last SACK went out -/
+  owesSack  : Bool := false
+  /-- SACKs sent without owing one since the last datagram came in (the delayed-SACK logic may repeat
+  a SACK once; more is chatter) -/
+  freeSacks : Nat := 0
   /-- per `transmit()`: what the model computes -/
   out       : List String := []
   viol      : Option String := none
   rexmits   : Nat := 0
+  /-- datagrams emitted while everything was acknowledged and nothing queued -/
   quietTx   : Nat := 0
+  /-- largest number of unacknowledged, not gap-acked bytes on the wire beyond the newest advertised window -/
+  maxOver   : Nat := 0
 deriving Repr, Inhabited
+
+/-- bytes on the wire that no processed SACK has acknowledged (cumulatively or by a gap block) -/
+def EpSt.outstanding (st : EpSt) : Nat := (st.unacked.filter (fun e => !e.2.2)).foldl (fun a e => a + e.2.1) 0
+
+/-- everything submitted has been sent and cumulatively acknowledged -/
+def EpSt.idle (st : EpSt) : Bool := st.everSent && st.unacked.isEmpty && st.outQ.isEmpty
+
+def setViol (st : EpSt) (v : String) : EpSt := if st.viol.isNone then { st with viol := some v } else st
 
 /-- `max_payload_size` per channel id for the fragment sizes (default when absent) -/
 def mpsOf (cfg : List (UInt16 × Nat)) (chan : UInt16) : Nat :=
@@ -132,56 +160,98 @@ def popSizes : List Nat → Nat → Nat → List Nat × List Nat
       (c :: r.1, r.2)
     else ([], c :: rest)
 
+/-- a TSN is named by one of the gap blocks of a SACK with cumulative TSN `cum` -/
+def inGaps (cum : UInt32) (gaps : List (UInt16 × UInt16)) (t : UInt32) : Bool :=
+  gaps.any (fun g => let o := t - cum; g.1.toUInt32 ≤ o && o ≤ g.2.toUInt32)
+
 def epRxChunk (st : EpSt) (c : RawChunk) : EpSt :=
   let ty := c.ty.toNat
   if ty == ctInit || ty == ctInitAck then
     match parseInit c.value with
-    | some (_, arwnd, _, _) => { st with rwnd := arwnd.toNat }
+    | some (_, arwnd, _, _) => { st with rwnd := arwnd.toNat, bestRwnd := if st.cumAcked.isNone then arwnd.toNat else st.bestRwnd }
     | none => st
   else if ty == ctSack then
     match parseSack c.value with
-    | some (cum, arwnd, _, _) =>
-      let ca := match st.cumAcked with
-        | some old => if tsnGt cum old then some cum else some old
-        | none => some cum
-      { st with rwnd := arwnd.toNat, cumAcked := ca }
+    | some (cum, arwnd, gaps, _) =>
+      -- a SACK serially older than one already processed carries stale news about the receiver
+      let newer := match st.cumAcked with
+        | some old => !tsnGt old cum
+        | none => true
+      -- the code keeps its `peer_rwnd` when the SACK is serially behind the newest one (RFC 4960 §6.2.1 D i)
+      let overtaken := match st.cumAcked with
+        | some old => tsnGt old cum
+        | none => false
+      let st := if overtaken then st else { st with rwnd := arwnd.toNat }
+      if newer then
+        -- at an unchanged cumulative TSN the receiver's window can only have shrunk (more is queued)
+        let rw := if st.cumAcked == some cum then min st.bestRwnd arwnd.toNat else arwnd.toNat
+        let un := (st.unacked.filter (fun e => tsnGt e.1 cum)).map (fun e => (e.1, e.2.1, e.2.2 || inGaps cum gaps e.1))
+        { st with cumAcked := some cum, bestRwnd := rw, unacked := un, afterT3 := st.afterT3 && !un.isEmpty }
+      else
+        { st with unacked := st.unacked.map (fun e => (e.1, e.2.1, e.2.2 || inGaps cum gaps e.1)) }
     | none => st
+  else if ty == ctData || ty == ctForwardTsn then { st with owesSack := true }
   else st
 
 def epTxChunk (idx : Nat) (st : EpSt) (c : RawChunk) : EpSt :=
   let ty := c.ty.toNat
+  -- quiescence: once everything is acknowledged and nothing is queued, no retransmitted DATA, no
+  -- FORWARD-TSN, no INIT / COOKIE-ECHO, and at most one SACK that is not owed per incoming datagram
+  let isNewData := ty == ctData && (match parseData c.flags c.value with | some d => st.nextTsn == some d.tsn | none => false)
+  let freeSack := ty == ctSack && !st.owesSack
+  let st := if freeSack then { st with freeSacks := st.freeSacks + 1 } else st
+  let st :=
+    if st.idle && ((ty == ctData && !isNewData) || ty == ctForwardTsn || ty == ctInit || ty == ctCookieEcho || (freeSack && st.freeSacks > 1)) then
+      setViol st s!"not-quiescent:{ty}@{idx}"
+    else st
   if ty == ctInit || ty == ctInitAck then
     match parseInit c.value with
     | some (_, _, itsn, _) => { st with nextTsn := some itsn }
     | none => st
+  else if ty == ctSack then { st with owesSack := false }
   else if ty == ctData then
     match parseData c.flags c.value with
     | none => st
     | some d =>
-      let st := match st.nextTsn with
-        | some nx => if d.tsn == nx then { st with nextTsn := some (nx + 1) } else { st with rexmits := st.rexmits + 1 }
-        | none => st
+      let wire := sctpChunkHdr + c.value.length + pad4 (sctpChunkHdr + c.value.length)
+      let isNew := st.nextTsn == some d.tsn
+      let st := if isNew then { st with nextTsn := some (d.tsn + 1), everSent := true, unacked := st.unacked ++ [(d.tsn, wire, false)] }
+                else { st with rexmits := st.rexmits + 1 }
+      -- the window clause against the independent accounting: new data only while what is on the
+      -- wire, unacknowledged, stays within the newest advertised window plus one packet
+      let st := if isNew then
+          let over := st.outstanding - st.bestRwnd
+          let st := { st with maxOver := max st.maxOver over }
+          if over > sctpMaxPacket then
+            setViol st (if st.afterT3 then s!"window-overshoot-after-t3:{st.outstanding}>{st.bestRwnd}@{idx}"
+                        else if st.rwnd > st.bestRwnd then s!"window-overshoot-stale-sack:{st.outstanding}>{st.bestRwnd}@{idx}"
+                        else s!"window-overshoot:{st.outstanding}>{st.bestRwnd}@{idx}")
+          else st
+        else st
       match st.cumAcked with
-      | some ca => if !tsnGt d.tsn ca && st.viol.isNone then { st with viol := some s!"rexmit-after-sack:{d.tsn}@{idx}" } else st
+      | some ca => if !tsnGt d.tsn ca then setViol st s!"rexmit-after-sack:{d.tsn}@{idx}" else st
       | none => st
   else st
 
 def epStep (cfg : List (UInt16 × Nat)) (st : EpSt) (idx : Nat) (ev : TEv) : EpSt :=
   match ev with
   | .loop => st
-  | .t3 => st
+  | .t3 => { st with afterT3 := !st.unacked.isEmpty }
   | .enq chan _ len => { st with outQ := st.outQ ++ fragSizes (mpsOf cfg chan) len }
   | .rx p =>
+    let st := { st with freeSacks := 0 }
     match parsePacket p with
     | some pk => pk.chunks.foldl epRxChunk st
     | none => st
   | .tx p =>
+    let st := if st.idle then { st with quietTx := st.quietTx + 1 } else st
     match parsePacket p with
     | some pk => pk.chunks.foldl (epTxChunk idx) st
     | none => st
-  | .win cwnd flight rwnd burst _ =>
-    let eff := min (min (flight + burst) cwnd) rwnd
-    let st := if rwnd != st.rwnd && st.viol.isNone then { st with viol := some s!"stale-rwnd:{rwnd}!={st.rwnd}@{idx}" } else st
+  | .win cwnd flight _ burst _ =>
+    -- correspondence (not an oracle): the window the code computes from its own variables, with the
+    -- advertised window the model believes the code holds (the last one received)
+    let eff := min (min (flight + burst) cwnd) st.rwnd
     { st with out := st.out ++ [s!"w{eff}"] }
   | .new available _ _ _ =>
     let r := popSizes st.outQ available 0
